@@ -682,10 +682,10 @@ def run_bounded(rep: Report, tier: str) -> None:
         part("G1b: 1 operand, rank <= 3, grammar-exhaustive", _work_grammar, [((t,), 1, 1) for t in T3], True,
              "symbols {a,b,c}, <= 3 named indices, '...' anywhere (rank 0..2), every output; every API on every case", chunk=1)
         T4 = grammar_terms("abcd", 3)
-        pairs = [(rng.choice(T4), rng.choice(T4)) for _ in range(500)]
-        part("G2b: 2 operands over {a,b,c,d} rank <= 3: 500 sampled term pairs x all outputs x all ellipsis ranks", _work_grammar,
+        pairs = [(rng.choice(T4), rng.choice(T4)) for _ in range(1500)]
+        part("G2b: 2 operands over {a,b,c,d} rank <= 3: 1500 sampled term pairs x all outputs x all ellipsis ranks", _work_grammar,
              [(pr, 4, 8) for pr in pairs], False,
-             "500 seeded pairs of operand terms (<= 3 named indices over 4 symbols, '...' anywhere); for each: every ellipsis "
+             "1500 seeded pairs of operand terms (<= 3 named indices over 4 symbols, '...' anywhere); for each: every ellipsis "
              "rank 0..2 per operand and every implicit/explicit output", chunk=1)
     n3, n4 = (2500, 1500) if quick else (60000, 40000)
     per = 125
